@@ -4,6 +4,10 @@ import PEval.Lemmas.AnalyzerErrors
 import PEval.Lemmas.AnalyzerAreas
 import PEval.Lemmas.AnalyzerPassFail
 import PEval.Lemmas.AnalyzerDT
+import PEval.Lemmas.AnalyzerConfusion
+import PEval.Lemmas.AnalyzerFrames
+import PEval.Lemmas.AnalyzerSummary
+import PEval.Lemmas.AnalyzerStatusRates
 import PEval.Gen.AnalyzerDT
 /-!
 # C19 — analysis tables are a faithful tabulation of the frame results
@@ -401,26 +405,15 @@ theorem label_tp_rate_exact (L : String) :
     exact (one_lt_div hd').mpr (by exact_mod_cast hlt)
 
 /-- **confusion_sum.** Whenever a confusion matrix is returned (any table, any label list, hence any
-selection of `analyze`), its entries sum to the number of paired rows, which is positive. -/
+selection of `analyze`), its entries sum to the number of paired rows, which is positive; the matrix is square of
+the size of its index `confusionIndex` (`target_labels`, `"unknown"`, then the other labels met in the paired rows). -/
 theorem confusion_sum (labels : List String) (t : Table) (m : List (List Nat))
     (h : getConfusionMatrix labels t = .ok (some m)) :
     sumN (m.map sumN) = (getPairResults t).length ∧ 0 < (getPairResults t).length ∧
-    m.length = (confusionLabels labels).length ∧ ∀ row ∈ m, row.length = (confusionLabels labels).length := by
+    m.length = (confusionIndex labels t).length ∧ ∀ row ∈ m, row.length = (confusionIndex labels t).length := by
   obtain ⟨h1, h2⟩ := confusion_some labels t m h
-  refine ⟨h1, h2, ?_, ?_⟩
-  all_goals
-    unfold getConfusionMatrix at h
-    split at h
-    · simp at h
-    · simp only at h
-      split at h
-      · split at h
-        · simp at h
-        · simp only [Except.ok.injEq, Option.some.injEq] at h
-          subst h
-          simp [bincountMatrix]
-      · simp at h
-      · simp at h
+  obtain ⟨h3, h4⟩ := confusionWith_shape _ t m h
+  exact ⟨h1, h2, h3, h4⟩
 
 /-- **confusion_none_iff.** No matrix is returned exactly when no row is paired. -/
 theorem confusion_none_iff (labels : List String) (t : Table) :
@@ -797,5 +790,546 @@ example : agree [] [] (areaSkel 3) (areaSkel 9) PA.empty = false := by decide +k
 example : agree [] [] (rowsSkel 4) (rowsSkel 10) PA.empty = false := by decide +kernel
 
 end Table
+
+/-! # Additions after the audit (Part 1 item 5, Part 4 C19): the `ValueError` branch of `get_confusion_matrix` (N3), the
+ego-frame clause, which rows feed `summarize_error`, and the status rates of `common/status.py`. -/
+
+/-! ## N3 (FIXED in /repo by `fix:` 24663d1): `get_confusion_matrix` / `analyze` and paired rows with other labels
+
+The property says "the confusion matrix sums to the number of paired rows".  The PRE-FIX code built the index of the
+matrix from `target_labels + ["unknown"]` only and looked every paired row's two labels up with `list.index`; a paired
+row with another label (an FP result that keeps a "false_positive"-labelled ground truth — status (FP, FP), reachable
+when the pass/fail target labels hold "false_positive" but the evaluation config's do not) made it raise `ValueError`.
+The repair appends the labels met in the paired rows to the index.  `getConfusionMatrix` / `analyze` model the repaired
+code; `getConfusionMatrixOld` / `analyzeOld` the pre-fix behaviour, characterised exactly below. -/
+
+/-- **confusion_total (headline, unconditional).** For EVERY table and label list the repaired `get_confusion_matrix`
+returns: nothing exactly when no row is paired; otherwise a square matrix over the index `confusionIndex` whose entries
+sum to the number of paired rows, entry `(i, j)` being the number of paired rows with the `i`-th label on the
+ground-truth row and the `j`-th on the estimate row.  The index starts with `target_labels + ["unknown"]` and holds
+besides exactly the other labels of the paired rows (appended in order of first occurrence, ground-truth column first:
+`confusionIndex`, `example_n3`).  Whenever the pre-fix function returned a result, the index is the old one and the
+result is the same. -/
+theorem confusion_total (labels : List String) (t : Table) :
+    (∃ m, getConfusionMatrix labels t = .ok m ∧ (m = none ↔ getPairResults t = []) ∧
+      ∀ mm, m = some mm →
+        sumN (mm.map sumN) = (getPairResults t).length ∧
+        mm.length = (confusionIndex labels t).length ∧ (∀ row ∈ mm, row.length = (confusionIndex labels t).length) ∧
+        ∀ i j, i < (confusionIndex labels t).length → j < (confusionIndex labels t).length →
+          entry mm i j = (getPairResults t).countP (fun p =>
+            decide ((confusionIndex labels t).idxOf p.1.obj.label = i) &&
+            decide ((confusionIndex labels t).idxOf p.2.obj.label = j))) ∧
+    (confusionLabels labels <+: confusionIndex labels t ∧
+      ∀ x, x ∈ confusionIndex labels t ↔
+        x ∈ confusionLabels labels ∨ ∃ p ∈ getPairResults t, x = p.1.obj.label ∨ x = p.2.obj.label) ∧
+    (∀ r, getConfusionMatrixOld labels t = .ok r →
+      confusionIndex labels t = confusionLabels labels ∧ getConfusionMatrix labels t = .ok r) := by
+  refine ⟨?_, confusionIndex_spec labels t, confusion_old_ok_eq labels t⟩
+  obtain ⟨m, hm⟩ := confusion_ok labels t
+  refine ⟨m, hm, ?_, ?_⟩
+  · constructor
+    · intro h; subst h; exact (PEval.Analyzer.confusion_none_iff labels t).mp hm
+    · intro hp
+      have := (PEval.Analyzer.confusion_none_iff labels t).mpr hp
+      rw [hm] at this
+      exact Except.ok.inj this
+  · intro mm h; subst h
+    obtain ⟨h3, h4⟩ := confusionWith_shape _ t mm hm
+    exact ⟨(confusion_some labels t mm hm).1, h3, h4, fun i j hi hj => confusionWith_entry _ t mm hm i j hi hj⟩
+
+/-- **analyze_total.** The repaired `analyze` fails only with `AssertionError`, and only for an inverted distance
+range; whatever the pre-fix `analyze` returned, it returns. -/
+theorem analyze_total (labels : List String) (full : Table) (s : Sel) (d : Option (Rat × Rat)) :
+    (∀ e, analyze labels full s d = .error e → e = "AssertionError" ∧ ∃ dd, d = some dd ∧ ¬ dd.1 < dd.2) ∧
+    (∀ r, analyzeOld labels full s d = .ok r → analyze labels full s d = .ok r) :=
+  ⟨analyze_error_kind labels full s d, analyze_of_analyzeOld labels full s d⟩
+
+/-- **confusion_error_iff (N3, exact; PRE-FIX function).** The pre-fix `get_confusion_matrix` raised exactly when some
+PAIRED row carries — on its ground-truth row or on its estimate row — a label outside `target_labels + ["unknown"]`;
+the exception was always `ValueError`; otherwise a result was returned: no matrix exactly when no row is paired, else a
+matrix whose entries sum to the number of paired rows. -/
+theorem confusion_error_iff (labels : List String) (t : Table) :
+    ((∃ e, getConfusionMatrixOld labels t = .error e) ↔ ∃ p ∈ getPairResults t, OutsideLabel labels p) ∧
+    (∀ e, getConfusionMatrixOld labels t = .error e → e = "ValueError") ∧
+    ((∀ p ∈ getPairResults t, ¬ OutsideLabel labels p) →
+      ∃ m, getConfusionMatrixOld labels t = .ok m ∧ (m = none ↔ getPairResults t = []) ∧
+        ∀ mm, m = some mm → sumN (mm.map sumN) = (getPairResults t).length) := by
+  refine ⟨confusion_error_iff' labels t, confusion_error_kind labels t, ?_⟩
+  intro hin
+  cases hc : getConfusionMatrixOld labels t with
+  | error e =>
+    obtain ⟨p, hp, ho⟩ := (confusion_error_iff' labels t).mp ⟨e, hc⟩
+    exact absurd ho (hin p hp)
+  | ok m =>
+    refine ⟨m, rfl, ?_, ?_⟩
+    · constructor
+      · intro hm; subst hm; exact (confusionOld_none_iff labels t).mp hc
+      · intro hp
+        have := (confusionOld_none_iff labels t).mpr hp
+        rw [hc] at this
+        exact Except.ok.inj this
+    · intro mm hm; subst hm
+      exact (confusionOld_some labels t mm hc).1
+
+/-- **analyze_error_iff (N3 through the PRE-FIX `analyze`).** It raised `ValueError` exactly when the selected
+sub-table has a paired row with an outside label. -/
+theorem analyze_error_iff (labels : List String) (full : Table) (s : Sel) (d : Option (Rat × Rat)) :
+    analyzeOld labels full s d = .error "ValueError" ↔
+      ∃ df, selectTable full s d = .ok df ∧ ∃ p ∈ getPairResults df, OutsideLabel labels p :=
+  analyze_valueError_iff labels full s d
+
+/-- **confusion_error_frames (PRE-FIX).** In terms of the frames' pass/fail lists: on the table of any scenes the old
+matrix could not be built exactly when some TP result, or some FP result that carries a ground truth, has a
+ground-truth label or an estimate label outside `target_labels + ["unknown"]`. -/
+theorem confusion_error_frames (labels : List String) :
+    (∃ e, getConfusionMatrixOld labels (addAll area scenes).table = .error e) ↔
+      ∃ f ∈ scenes.flatten, ∃ p ∈ f.pairs,
+        p.1.label ∉ confusionLabels labels ∨ p.2.label ∉ confusionLabels labels := by
+  rw [(confusion_error_iff labels _).1]
+  have h := (pairs_eq_lists area scenes).1
+  constructor
+  · rintro ⟨p, hp, ho⟩
+    have : (p.1.obj, p.2.obj) ∈ scenes.flatten.flatMap Frame.pairs := by
+      rw [← h]; exact List.mem_map_of_mem (f := fun p : Cell × Cell => (p.1.obj, p.2.obj)) hp
+    obtain ⟨f, hf, hpf⟩ := List.mem_flatMap.mp this
+    exact ⟨f, hf, _, hpf, ho⟩
+  · rintro ⟨f, hf, q, hq, ho⟩
+    have : q ∈ (getPairResults (addAll area scenes).table).map (fun p => (p.1.obj, p.2.obj)) := by
+      rw [h]; exact List.mem_flatMap.mpr ⟨f, hf, hq⟩
+    obtain ⟨p, hp, rfl⟩ := List.mem_map.mp this
+    exact ⟨p, hp, ho⟩
+
+/-- **analyze_total_of_labels (PRE-FIX).** When every TP result and every FP result carrying a ground truth has both
+labels in `target_labels + ["unknown"]`, no selection made the old `analyze` raise `ValueError`. -/
+theorem analyze_total_of_labels (labels : List String) (s : Sel) (d : Option (Rat × Rat))
+    (hin : ∀ f ∈ scenes.flatten, ∀ p ∈ f.pairs,
+      p.1.label ∈ confusionLabels labels ∧ p.2.label ∈ confusionLabels labels) :
+    analyzeOld labels (addAll area scenes).table s d ≠ .error "ValueError" := by
+  intro herr
+  obtain ⟨df, hdf, p, hp, ho⟩ := (analyze_error_iff labels _ s d).mp herr
+  have hsub : ∀ r ∈ df, r ∈ (addAll area scenes).table := by
+    cases d with
+    | none =>
+      simp only [selectTable, Except.ok.injEq] at hdf
+      subst hdf
+      exact fun r hr => (List.mem_filter.mp hr).1
+    | some dd =>
+      simp only [selectTable, filterByDistance] at hdf
+      split at hdf
+      · simp only [Except.ok.injEq] at hdf
+        subst hdf
+        exact fun r hr => (List.mem_filter.mp (List.mem_filter.mp hr).1).1
+      · cases hdf
+  have hp' : p ∈ getPairResults (addAll area scenes).table := by
+    rw [getPairResults_eq] at hp ⊢
+    obtain ⟨r, hr, hrp⟩ := List.mem_filterMap.mp hp
+    exact List.mem_filterMap.mpr ⟨r, hsub r hr, hrp⟩
+  obtain ⟨f, hf, q, hq, hoq⟩ := (confusion_error_frames area scenes labels).mp
+    ((confusion_error_iff labels _).1.mpr ⟨p, hp', ho⟩)
+  have := hin f hf q hq
+  rcases hoq with h | h
+  · exact h this.1
+  · exact h this.2
+
+section ExamplesN3
+
+def fpl (u : String) (x : Rat) : Obj := ⟨u, "false_positive", x, 0, 0, 2, 4, some 1, none⟩
+def bike (u : String) (x : Rat) : Obj := ⟨u, "bicycle", x, 0, 0, 2, 4, some 1, none⟩
+
+/-- the reproduction: one TP pair, one FP result that keeps its FP-labelled ground truth (status (FP, FP)) -/
+def n3Frame : Frame :=
+  { frameNum := 0, tp := [⟨car "e1" (151/5), some (car "g1" 30)⟩], fp := [⟨car "e0" (51/5), some (fpl "g0" 10)⟩]
+    tn := [], fn := [], critical := [car "g1" 30, fpl "g0" 10] }
+
+/-- the ORDER of the appended labels: the estimate column meets "bicycle" in row 0, the ground-truth column
+"false_positive" in row 1 — the ground-truth column's labels come first -/
+def n3OrderFrame : Frame :=
+  { frameNum := 0, tp := [⟨bike "e1" (151/5), some (car "g1" 30)⟩], fp := [⟨car "e0" (51/5), some (fpl "g0" 10)⟩]
+    tn := [], fn := [], critical := [car "g1" 30, fpl "g0" 10] }
+
+def n3Table : Table := (addAll (fun _ _ => none) [[n3Frame]]).table
+
+/-- with target labels `["car"]` the PRE-FIX `get_confusion_matrix()` and `analyze()` raised `ValueError`; the repaired
+ones return the 3×3 matrix over `car, unknown, false_positive` summing to the 2 paired rows; selecting the TP row only
+gives the old 2×2 matrix; with "false_positive" a target label old and new agree -/
+theorem example_n3 :
+    getConfusionMatrixOld ["car"] n3Table = .error "ValueError" ∧
+    (analyzeOld ["car"] n3Table {} none).map (·.map (·.confusion)) = .error "ValueError" ∧
+    confusionIndex ["car"] n3Table = ["car", "unknown", "false_positive"] ∧
+    getConfusionMatrix ["car"] n3Table = .ok (some [[1, 0, 0], [0, 0, 0], [1, 0, 0]]) ∧
+    (analyze ["car"] n3Table {} none).map (·.map (·.confusion)) = .ok (some (some [[1, 0, 0], [0, 0, 0], [1, 0, 0]])) ∧
+    (analyze ["car"] n3Table { statuses := some [.TP] } none).map (·.map (·.confusion)) = .ok (some (some [[1, 0], [0, 0]])) ∧
+    getConfusionMatrixOld ["car", "false_positive"] n3Table = .ok (some [[1, 0, 0], [1, 0, 0], [0, 0, 0]]) ∧
+    getConfusionMatrix ["car", "false_positive"] n3Table = .ok (some [[1, 0, 0], [1, 0, 0], [0, 0, 0]]) ∧
+    (getPairResults n3Table).length = 2 ∧
+    confusionIndex ["car"] (addAll (fun _ _ => none) [[n3OrderFrame]]).table = ["car", "unknown", "false_positive", "bicycle"] := by
+  refine ⟨by decide +kernel, by decide +kernel, by decide +kernel, by decide +kernel, by decide +kernel,
+    by decide +kernel, by decide +kernel, by decide +kernel, by decide +kernel, by decide +kernel⟩
+
+/-- non-vacuity of `analyze_total_of_labels`: its hypothesis holds for the F11 frame, fails for `n3Frame` -/
+example : (∀ f ∈ [[f11Input.frame]].flatten, ∀ p ∈ f.pairs,
+      p.1.label ∈ confusionLabels ["car"] ∧ p.2.label ∈ confusionLabels ["car"]) ∧
+    ¬ (∀ f ∈ [[n3Frame]].flatten, ∀ p ∈ f.pairs,
+      p.1.label ∈ confusionLabels ["car"] ∧ p.2.label ∈ confusionLabels ["car"]) := by
+  decide +kernel
+
+/-- the headline statement has content: for the DEFECTIVE variant that silently drops rows with an outside label,
+"a returned matrix sums to the number of paired rows" FAILS (and for the pre-fix function "a result is returned"
+fails, `example_n3`); the repair spelled as "old function on the extended label list" is the repaired function -/
+theorem confusion_skip_fails :
+    let T := (addAll (fun _ _ => none) [[n3Frame]]).table
+    (∃ m, getConfusionMatrixSkip ["car"] T = some m ∧ sumN (m.map sumN) ≠ (getPairResults T).length) ∧
+    (∀ labels t, getConfusionMatrixExt labels t = getConfusionMatrix labels t) := by
+  refine ⟨⟨[[1, 0], [0, 0]], by decide +kernel, by decide +kernel⟩, getConfusionMatrixExt_eq⟩
+
+end ExamplesN3
+
+/-! ## rows are expressed in the ego frame, for objects given in `base_link` or in `map`
+
+`RawObj` / `RawFrame` (Model/Analyzer.lean) are the objects as handed to the analyzer, in the frame of the evaluation,
+with the frame's ego pose; `addAllRaw` follows `format2dict` and `get_area_idx`, each with its own
+`transforms.transform(TransformKey(frame_id, BASE_LINK), …)` step. -/
+
+/-- **rows_from_raw.** The table built from objects given in either frame is the table of the ego-frame model built
+from their ego-frame views (so every theorem above about `addAll` holds for it), and the columns of one object's row
+are: `x`, `y` the planar part of `transform((frame, BASE_LINK), position)` (the height is dropped), `yaw` the
+principal value of the yaw relative to the ego, the area index that of this ego-frame position, the `distance` column
+(squared) `x² + y²`; velocities, sizes, uuid and label are copied. -/
+theorem rows_from_raw (a : Areas) (rscenes : List (List RawFrame)) :
+    addAllRaw a rscenes = addAll (areaOf a) (rscenes.map (·.map RawFrame.toFrame)) ∧
+    ∀ (e : FrameChange.Pose) (o : RawObj),
+      (o.frame = .baseLink → (o.toRow e).x = o.pos.x ∧ (o.toRow e).y = o.pos.y ∧ (o.toRow e).yaw = o.yaw) ∧
+      (o.frame = .map → (o.toRow e).x = (FrameChange.toEgo3 e o.pos).x ∧ (o.toRow e).y = (FrameChange.toEgo3 e o.pos).y ∧
+        (o.toRow e).yaw = Heading.toEgoYaw e.tau o.yaw) ∧
+      areaOfRaw a e o = areaOf a (o.toRow e).x (o.toRow e).y ∧
+      (o.toRow e).dist2 = (o.toRow e).x * (o.toRow e).x + (o.toRow e).y * (o.toRow e).y ∧
+      ((o.toRow e).uuid, (o.toRow e).label, (o.toRow e).width, (o.toRow e).length, (o.toRow e).vx, (o.toRow e).vy) =
+        (o.uuid, o.label, o.width, o.length, o.vx, o.vy) := by
+  refine ⟨addAllRaw_eq a rscenes, fun e o => ⟨?_, ?_, rfl, rfl, rfl⟩⟩
+  · intro hf; simp [RawObj.toRow, egoPosition, egoYaw, hf]
+  · intro hf; simp [RawObj.toRow, egoPosition, egoYaw, hf]
+
+/-- **ego_row_of_rendering.** One physical object with ego-frame position `(x, y, z)` and yaw `τ ∈ (−1, 1]`, rendered
+into the map frame by an ego pose (unit rotation, ego yaw in (−1, 1], ANY translation incl. the ego's height), is
+tabulated with exactly the same row as its base_link rendering: `x`, `y`, `τ`, the area index of `(x, y)`, squared
+distance `x² + y²` — whatever the heights, and for the base_link rendering whatever transform is registered. -/
+theorem ego_row_of_rendering (a : Areas) (e e' : FrameChange.Pose) (o : RawObj) (hu : e.rot.IsUnit)
+    (he : Heading.InDom e.tau) (ho : Heading.InDom o.yaw) (hf : o.frame = .baseLink) :
+    (o.renderMap e).toRow e = o.toRow e' ∧
+    ((o.renderMap e).toRow e).x = o.pos.x ∧ ((o.renderMap e).toRow e).y = o.pos.y ∧
+    ((o.renderMap e).toRow e).yaw = o.yaw ∧
+    areaOfRaw a e (o.renderMap e) = areaOf a o.pos.x o.pos.y ∧ areaOfRaw a e' o = areaOf a o.pos.x o.pos.y ∧
+    ((o.renderMap e).toRow e).dist2 = o.pos.x * o.pos.x + o.pos.y * o.pos.y := by
+  have h1 := toRow_renderMap e o hu he ho
+  have h2 := toRow_baseLink e' o hf
+  refine ⟨h1.trans h2.symm, by rw [h1], by rw [h1], by rw [h1], ?_, ?_, by rw [h1]; rfl⟩
+  · rw [areaOfRaw_eq, h1]
+  · rw [areaOfRaw_eq, h2]
+
+/-- **ego_frame_invariance.** The whole table (every column, every row pair, every index) is the same for the map
+rendering and for the base_link rendering of the same physical scenes, frame by frame with the frame's own ego pose;
+hence so is everything computed from the table (counts, errors, summaries, rates, confusion matrix, selections by
+area and distance). -/
+theorem ego_frame_invariance (a : Areas) (rscenes : List (List RawFrame))
+    (h : ∀ f ∈ rscenes.flatten, f.ego.rot.IsUnit ∧ Heading.InDom f.ego.tau ∧ f.EgoGiven) :
+    addAllRaw a (rscenes.map (·.map RawFrame.renderMap)) = addAllRaw a rscenes := by
+  rw [addAllRaw_eq, addAllRaw_eq]
+  congr 1
+  rw [List.map_map]
+  apply List.map_congr_left
+  intro fs hfs
+  simp only [Function.comp_apply, List.map_map]
+  apply List.map_congr_left
+  intro f hf
+  have := h f (List.mem_flatten.mpr ⟨fs, hfs, hf⟩)
+  exact toFrame_renderMap f this.1 this.2.1 this.2.2
+
+section ExamplesEgo
+
+/-- ego at (10, 20, 3) in the map, heading a quarter turn left (yaw 1/2 half-turns) -/
+def egoQuarter : FrameChange.Pose := ⟨⟨0, 1⟩, 1 / 2, ⟨10, 20, 3⟩⟩
+
+def rawCar (u : String) (x y z yaw : Rat) : RawObj := ⟨.baseLink, u, "car", ⟨x, y, z⟩, yaw, 2, 4, some 1, none⟩
+
+def rawFrame : RawFrame :=
+  { ego := egoQuarter, frameNum := 0
+    tp := [⟨rawCar "e1" 41 (-19) 0 (3 / 4), some (rawCar "g1" 40 (-20) 2 (7 / 8))⟩]
+    fp := [⟨rawCar "e2" (-50) 30 0 0, none⟩], tn := [], fn := [rawCar "g3" 5 5 (-1) 1]
+    critical := [rawCar "g1" 40 (-20) 2 (7 / 8), rawCar "g3" 5 5 (-1) 1] }
+
+/-- non-vacuity of `ego_frame_invariance` and a look at the numbers: the map rendering of g1 sits at (30, 60, 5) with
+yaw −5/8; both renderings are tabulated at (40, −20) with yaw 7/8 in area 6 (that of the estimate at (41, −19)) of the 9-division of (96, 48) -/
+theorem example_ego_rows :
+    (∀ f ∈ [[rawFrame]].flatten, f.ego.rot.IsUnit ∧ Heading.InDom f.ego.tau ∧ f.EgoGiven) ∧
+    (rawCar "g1" 40 (-20) 2 (7 / 8)).renderMap egoQuarter =
+      ⟨.map, "g1", "car", ⟨30, 60, 5⟩, -5 / 8, 2, 4, some 1, none⟩ ∧
+    (generateAreaPoints 9 96 48).map (fun a =>
+      ((addAllRaw a [[rawFrame.renderMap]]).table.map fun r => (r.gt.map fun c => ([c.obj.x, c.obj.y, c.obj.yaw], c.area)))) =
+      .ok [some ([40, -20, 7 / 8], some 6), none, some ([5, 5, 1], some 4)] ∧
+    (generateAreaPoints 9 96 48).map (fun a => (addAllRaw a [[rawFrame.renderMap]]).table == (addAllRaw a [[rawFrame]]).table) = .ok true := by
+  refine ⟨?_, by decide +kernel, by decide +kernel, by decide +kernel⟩
+  intro f hf
+  simp only [List.flatten_cons, List.flatten_nil, List.append_nil, List.mem_singleton] at hf
+  subst hf
+  refine ⟨by simp [Geometry.Rot2.IsUnit, rawFrame, egoQuarter], by decide +kernel, ?_, ?_⟩
+  · intro p hp
+    simp only [rawFrame, List.cons_append, List.nil_append, List.mem_cons, List.not_mem_nil, or_false] at hp
+    rcases hp with rfl | rfl
+    · refine ⟨⟨rfl, by decide +kernel⟩, ?_⟩
+      intro g hg; cases hg; exact ⟨rfl, by decide +kernel⟩
+    · refine ⟨⟨rfl, by decide +kernel⟩, ?_⟩
+      intro g hg; cases hg
+  · intro o ho
+    simp only [rawFrame, List.cons_append, List.nil_append, List.mem_cons, List.not_mem_nil, or_false] at ho
+    rcases ho with rfl | rfl | rfl <;> exact ⟨rfl, by decide +kernel⟩
+
+/-- the statement has content: for the DEFECTIVE variant that tabulates the object's own coordinates (no transform
+applied to map-frame objects) the two renderings of one object get DIFFERENT rows -/
+theorem toRow_noTransform_fails :
+    ¬ (∀ (e : FrameChange.Pose) (o : RawObj), e.rot.IsUnit → Heading.InDom e.tau → Heading.InDom o.yaw →
+        o.frame = .baseLink → (o.renderMap e).toRowNoTransform = o.toRowNoTransform) := by
+  intro h
+  have := h egoQuarter (rawCar "g1" 40 (-20) 2 (7 / 8)) (by simp [Geometry.Rot2.IsUnit, egoQuarter]) (by decide +kernel) (by decide +kernel) rfl
+  revert this
+  decide +kernel
+
+end ExamplesEgo
+
+/-! ## which rows feed `summarize_error`
+
+`Summary.rms2` and `Summary.var` are the SQUARES of the reported `rms` (`sqrt(mean(e²))`) and `std` (`np.std`); the
+square roots are taken by numpy and compared by the harness. -/
+
+/-- **error_summary_rows.** On every selection of the table of any scenes, `analyze().error` is: the block "ALL" =
+one summary per column of the per-row errors of ALL paired rows of the selected sub-table `df` (TP results and FP
+results carrying a ground truth; GT − estimate, yaw wrapped, NaN dropped); the block of target label `L` = the same
+over the paired rows of `df` whose GROUND-TRUTH row has label `L` — the estimate's label does not matter (unlike the
+per-label TP rate, N1). -/
+theorem error_summary_rows (labels : List String) (s : Sel) (d : Option (Rat × Rat)) (A : Analysis)
+    (h : analyze labels (addAll area scenes).table s d = .ok (some A)) :
+    let df := (addAll area scenes).table.filter (RowPair.selected s d)
+    A.error = ("ALL", errCols df) :: labels.map (fun L => (L, errCols (df.filter (gtLabelIs L)))) ∧
+    (∀ c, pairErrors c df = (getPairResults df).filterMap (pairError c)) ∧
+    (∀ c L, pairErrors c (df.filter (gtLabelIs L)) =
+      ((getPairResults df).filter (fun p => p.1.obj.label == L)).filterMap (pairError c)) ∧
+    (∀ p ∈ getPairResults df, (p.1.status = .TP ∧ p.2.status = .TP) ∨ (p.1.status = .FP ∧ p.2.status = .FP)) := by
+  intro df
+  have hd : ∀ dd, d = some dd → dd.1 < dd.2 := by
+    intro dd hdd
+    by_contra hn
+    have := ((selection_exact labels (addAll area scenes).table s d).2 dd hdd hn).2
+    rw [this] at h
+    cases h
+  obtain ⟨_, _, _, _, hA⟩ := (selection_exact labels (addAll area scenes).table s d).1 hd
+  obtain ⟨_, herr, _⟩ := hA A h
+  have hnd : ((addAll area scenes).table.map (·.index)).Nodup := by
+    rw [index_range]; exact List.nodup_range
+  have hp : PairsIn (addAll area scenes).table := by
+    intro p hp
+    have := (pairs_eq_lists area scenes).2
+    exact (List.filter_eq_self.mp this) p hp
+  refine ⟨?_, fun c => rfl, fun c L => pairErrors_gtLabel df (hp.filter _) L c, ?_⟩
+  · rw [herr]; exact summarizeError_eq labels _ _ hnd hp
+  · intro p hpm
+    have hsub : p ∈ getPairResults (addAll area scenes).table := by
+      rw [getPairResults_eq] at hpm ⊢
+      obtain ⟨r, hr, hrp⟩ := List.mem_filterMap.mp hpm
+      exact List.mem_filterMap.mpr ⟨r, (List.mem_filter.mp hr).1, hrp⟩
+    rw [getPairResults_eq] at hsub
+    obtain ⟨r, hr, hrp⟩ := List.mem_filterMap.mp hsub
+    obtain ⟨k, f, _, hit⟩ := mem_table area scenes r hr
+    simp only [frameItems, List.mem_append, List.mem_map] at hit
+    unfold pairOf at hrp
+    rcases hit with ((⟨q, _, hq⟩ | ⟨q, _, hq⟩) | ⟨o, _, hq⟩) | ⟨o, _, hq⟩
+    all_goals
+      simp only [RowPair.strip, resultCells, objectCells, Prod.mk.injEq] at hq
+      obtain ⟨hg, he⟩ := hq
+      rw [← hg, ← he] at hrp
+    · cases hqg : q.gt with
+      | none => simp [hqg] at hrp
+      | some g => simp [hqg] at hrp; subst hrp; exact Or.inl ⟨rfl, rfl⟩
+    · cases hqg : q.gt with
+      | none => simp [hqg] at hrp
+      | some g => simp [hqg] at hrp; subst hrp; exact Or.inr ⟨rfl, rfl⟩
+    · simp at hrp
+    · simp at hrp
+
+/-- **error_summary_whole.** On the whole table, in terms of the frames' pass/fail lists: the per-row errors behind
+"ALL" are GT − estimate of every TP result and every FP result carrying a ground truth, in table order; those behind
+label `L` are the same restricted to results whose ground truth has label `L`. -/
+theorem error_summary_whole (c : Col) (L : String) :
+    pairErrors c (addAll area scenes).table =
+      (scenes.flatten.flatMap Frame.pairs).filterMap (fun p => objError c p.1 p.2) ∧
+    pairErrors c ((addAll area scenes).table.filter (gtLabelIs L)) =
+      ((scenes.flatten.flatMap Frame.pairs).filter (fun p => p.1.label == L)).filterMap (fun p => objError c p.1 p.2) := by
+  have h := (pairs_eq_lists area scenes).1
+  have hp : PairsIn (addAll area scenes).table := by
+    intro p hp
+    exact (List.filter_eq_self.mp (pairs_eq_lists area scenes).2) p hp
+  constructor
+  · rw [← h, List.filterMap_map]; rfl
+  · rw [pairErrors_gtLabel _ hp, ← h, List.filter_map, List.filterMap_map]; rfl
+
+/-- **error_summary_functions.** Every summary reported for a column is the stated function of the per-row errors
+`e₁ … eₙ` of its block: NaN exactly when there is none; otherwise `average·n = Σ eᵢ`, `rms2·n = Σ eᵢ²` (`rms2` = SQUARE
+of the reported RMS), `var = rms2 − average²` (`var` = SQUARE of the reported std), `max` / `min` the largest /
+smallest `|eᵢ|`, attained. -/
+theorem error_summary_functions (t : Table) (c : Col) (o : Option Summary) (h : (c, o) ∈ errCols t) :
+    (o = none ↔ pairErrors c t = []) ∧
+    ∀ sm, o = some sm →
+      sm.average * ((pairErrors c t).length : Rat) = sumR (pairErrors c t) ∧
+      sm.rms2 * ((pairErrors c t).length : Rat) = sumR ((pairErrors c t).map fun v => v * v) ∧
+      sm.var = sm.rms2 - sm.average * sm.average ∧
+      (∀ v ∈ pairErrors c t, v.abs ≤ sm.max) ∧ (∃ v ∈ pairErrors c t, sm.max = v.abs) ∧
+      (∀ v ∈ pairErrors c t, sm.min ≤ v.abs) ∧ (∃ v ∈ pairErrors c t, sm.min = v.abs) := by
+  simp only [errCols, List.mem_map, Prod.mk.injEq] at h
+  obtain ⟨c', _, rfl, rfl⟩ := h
+  refine ⟨(summary_defs _).1, fun sm hs => ?_⟩
+  obtain ⟨h1, h2, h3⟩ := (summary_defs _).2 sm hs
+  obtain ⟨h4, h5, h6, h7⟩ := summary_max_min _ sm hs
+  exact ⟨h1, h2, h3, h4, h5, h6, h7⟩
+
+section ExamplesSummary
+
+/-- a TP pair with different labels (GT car at 10, estimate "unknown" at 9), an FP pair carrying a car GT (30 vs 34),
+a GT-less FP, an FN -/
+def sumFrame : Frame :=
+  { frameNum := 0, tp := [⟨unk "e1" 9, some (car "g1" 10)⟩], fp := [⟨car "e2" 34, some (car "g2" 30)⟩, ⟨car "e3" 70, none⟩]
+    tn := [], fn := [car "g2" 30, unk "g4" 50], critical := [car "g1" 10, car "g2" 30, unk "g4" 50] }
+
+/-- ALL and "car": x errors [1, −4] (mean −3/2, RMS² 17/2, max 4, min 1); "unknown": no paired row with an unknown
+GROUND TRUTH, NaN — although an estimate is labelled unknown -/
+theorem example_error_summary :
+    let T := (addAll (fun _ _ => none) [[sumFrame]]).table
+    (analyze ["car", "unknown"] T {} none).map (·.map fun A => A.error.map fun b => (b.1, b.2.head?.map (·.2))) =
+      .ok (some [("ALL", some (some ⟨-3 / 2, 17 / 2, 25 / 4, 4, 1⟩)),
+                 ("car", some (some ⟨-3 / 2, 17 / 2, 25 / 4, 4, 1⟩)), ("unknown", some none)]) ∧
+    pairErrors .x T = [1, -4] := by
+  decide +kernel
+
+/-- the statement has content: for the DEFECTIVE variant that picks a label's rows by the ESTIMATE's label, the label
+blocks are not those of `error_summary_rows` -/
+theorem summary_by_est_fails :
+    let T := (addAll (fun _ _ => none) [[sumFrame]]).table
+    summarizeErrorByEst ["car", "unknown"] T T ≠
+      ("ALL", errCols T) :: ["car", "unknown"].map (fun L => (L, errCols (T.filter (gtLabelIs L)))) ∧
+    summarizeError ["car", "unknown"] T T =
+      ("ALL", errCols T) :: ["car", "unknown"].map (fun L => (L, errCols (T.filter (gtLabelIs L)))) := by
+  decide +kernel
+
+end ExamplesSummary
+
+/-! ## `GroundTruthStatus.get_status_rates`, `StatusRate.rate`, `get_scene_rates` (`common/status.py`)
+
+`none` models `float("inf")`, which `StatusRate.rate` returns when the status count OR the total is 0 — i.e. also for
+a status that simply never occurred for that ground truth. -/
+
+/-- **status_rates_unit.** For every record of `get_object_status`: the record is balanced (`total` has one entry
+per entry of the four status lists) and non-empty; a rate is `inf` exactly for a status that never occurred; every
+defined rate is `#frames with that status / #tally entries`, lies in (0, 1]; reading `inf` as 0 the four rates sum to 1. -/
+theorem status_rates_unit (frames : List Frame) :
+    ∀ s ∈ getObjectStatus frames,
+      s.total.length = s.tp.length + s.fp.length + s.tn.length + s.fn.length ∧ 0 < s.total.length ∧
+      (∀ st, (st, none) ∈ s.statusRates ↔ (statusField st s).length = 0) ∧
+      (∀ st r, (st, some r) ∈ s.statusRates →
+        r = ((statusField st s).length : Rat) / (s.total.length : Rat) ∧ 0 < r ∧ r ≤ 1) ∧
+      ((s.statusRates.map fun p => rateOr0 p.2).foldr (· + ·) 0 = 1) := by
+  intro s hs
+  have hb := getObjectStatus_balanced frames s hs
+  have hn : s.total.length ≠ 0 := by have := hb.2; omega
+  refine ⟨hb.1, hb.2, ?_, ?_, ?_⟩
+  · intro st
+    cases st <;>
+      simp [GtStatus.statusRates, statusField, hn, statusRate]
+  · intro st r hr
+    have hle : (statusField st s).length ≤ s.total.length := by
+      have := hb.1
+      cases st <;> simp only [statusField] <;> omega
+    have hmem : statusRate (statusField st s).length s.total.length = some r := by
+      cases st <;> simp only [GtStatus.statusRates, statusField, List.mem_cons, Prod.mk.injEq, List.not_mem_nil,
+        or_false, reduceCtorEq, false_and, false_or, true_and] at hr ⊢ <;>
+        exact hr.symm
+    obtain ⟨_, _, hr'⟩ := statusRate_some _ _ _ hmem
+    exact ⟨hr', statusRate_unit _ _ _ hle hmem⟩
+  · have := statusRates_sum s hb
+    simp only [GtStatus.statusRates, List.map_cons, List.map_nil, List.foldr_cons, List.foldr_nil]
+    linarith
+
+/-- **scene_rates_unit_sum.** `get_scene_rates` returns the four `inf` exactly when nothing was tallied; otherwise
+each of the four rates lies in [0, 1] and they sum to 1 — with or without F11, because `add_status` appends to `total`
+and to one status list together. -/
+theorem scene_rates_unit_sum (frames : List Frame) :
+    (sceneRates (getObjectStatus frames) = none ↔ sumN (frames.map Frame.gtRows) = 0) ∧
+    ∀ a b c d, sceneRates (getObjectStatus frames) = some (a, b, c, d) →
+      (0 ≤ a ∧ a ≤ 1) ∧ (0 ≤ b ∧ b ≤ 1) ∧ (0 ≤ c ∧ c ≤ 1) ∧ (0 ≤ d ∧ d ≤ 1) ∧ a + b + c + d = 1 := by
+  refine ⟨?_, fun a b c d h => sceneRates_unit_sum _ (getObjectStatus_balanced frames) a b c d h⟩
+  rw [sceneRates_none_iff, sceneCounts_frames]
+
+/-- **scene_rates_f11_exact.** With well-formed pass/fail lists, writing `D` = number of (critical ground truth,
+frame) incidences — the denominator the property's "once per evaluated frame" asks for — and `X` = number of FP
+results carrying an ordinary ground truth (F11): the tallies behind the scene rates are `total = D + X`, `TP`,
+`FP = FPL + X`, `TN`, `FN` with `D = TP + FPL + TN + FN`.  So the code's rates are
+`TP/(D+X), (FPL+X)/(D+X), TN/(D+X), FN/(D+X)` (sum 1), every rate is scaled by `D/(D+X)` against the per-evaluated-frame
+rate and the FP rate additionally holds the `X` doubly counted frames; over the intended denominator `D` the four
+tallies would sum to `1 + X/D`. -/
+theorem scene_rates_f11_exact (frames : List Frame) (hwf : ∀ f ∈ frames, f.WF) :
+    let D := sumN (frames.map fun f => f.critical.length)
+    let X := sumN (frames.map fun f => f.fpOrd.length)
+    let TP := sumN (frames.map fun f => f.tpGts.length)
+    let FPL := sumN (frames.map fun f => f.fpFpl.length)
+    let TN := sumN (frames.map fun f => f.tn.length)
+    let FN := sumN (frames.map fun f => f.fn.length)
+    sceneCounts (getObjectStatus frames) = ⟨D + X, TP, FPL + X, TN, FN⟩ ∧ D = TP + FPL + TN + FN ∧
+    (0 < D → ((TP : Rat) + ((FPL + X : Nat) : Rat) + TN + FN) / D = 1 + (X : Rat) / D) := by
+  intro D X TP FPL TN FN
+  have hrows : sumN (frames.map Frame.gtRows) = D + X := by
+    rw [← sumN_map_add]
+    exact sumN_map_congr _ _ _ (fun f hf => (hwf f hf).gtRows_eq)
+  have hfp : sumN (frames.map fun f => f.fpGts.length) = FPL + X := by
+    rw [← sumN_map_add]
+    exact sumN_map_congr _ _ _ (fun f _ => f.fpGts_length)
+  have hD : D = TP + FPL + TN + FN := by
+    have : ∀ f ∈ frames, f.critical.length = f.tpGts.length + f.fpFpl.length + f.tn.length + f.fn.length := by
+      intro f hf
+      have := (hwf f hf).partition.length_eq
+      simp only [List.length_append] at this
+      omega
+    show sumN (frames.map fun f => f.critical.length) = _
+    rw [sumN_map_congr _ _ _ this, sumN_map_add, sumN_map_add, sumN_map_add]
+  refine ⟨?_, hD, ?_⟩
+  · rw [sceneCounts_frames, hrows, hfp]
+  · intro hpos
+    have hD' : (D : Rat) ≠ 0 := by
+      have : (0 : Rat) < (D : Rat) := by exact_mod_cast hpos
+      exact ne_of_gt this
+    have hcast : (D : Rat) = (TP : Rat) + FPL + TN + FN := by exact_mod_cast hD
+    rw [Nat.cast_add]
+    field_simp
+    linarith
+
+section ExamplesStatusRates
+
+/-- the F11 frame: g2 is tallied twice in frame 0 (FP and FN): its rates are FP 1/2, FN 1/2, TP and TN `inf`;
+scene tallies total 4 = D 3 + X 1; scene rates 1/4, 1/4, 0, 1/2 -/
+theorem example_status_rates :
+    (getObjectStatus [f11Input.frame]).map (fun s => (s.uuid, s.statusRates.map (·.2))) =
+      [("g1", [some 1, none, none, none]), ("g2", [none, some (1 / 2), none, some (1 / 2)]),
+       ("g3", [none, none, none, some 1])] ∧
+    sceneCounts (getObjectStatus [f11Input.frame]) = ⟨4, 1, 1, 0, 2⟩ ∧
+    sceneRates (getObjectStatus [f11Input.frame]) = some (1 / 4, 1 / 4, 0, 1 / 2) ∧
+    sceneRates (getObjectStatus []) = none := by
+  decide +kernel
+
+/-- the statements have content: a record that is not balanced (a status list longer than `total`: what an `add_status`
+that forgot `total` would produce) has a rate above 1 -/
+example : statusRate 2 1 = some 2 ∧ ¬ ((2 : Rat) ≤ 1) := by decide +kernel
+
+example : ∀ f ∈ [f11Input.frame], f.WF := by
+  intro f hf
+  simp only [List.mem_singleton] at hf
+  subst hf
+  exact (passFail_wf _ _ _ (by decide +kernel) (by decide +kernel) (by decide +kernel)).1
+
+end ExamplesStatusRates
 
 end PEval.C19
